@@ -7,7 +7,14 @@
 // The harness judges nothing; all expected values are computed by TLC (spec/ConvTrace.tla).
 // The encoders below are the trusted part (MUS ~35 lines, XMI ~45 lines, SMF/RMI/GMF ~60 lines); the
 // encoded bytes are recorded so that the trace specification can re-derive them from the format definition.
+// Command "Cvt" (leg C, refinement): calls the converter functions themselves (Convert_mus2midi / Convert_xmi2midi_multi,
+// header-only C, included exactly like src/midi_sequencer_impl.hpp does, with the arguments parseMUS / parseXMI pass) on the
+// encoded bytes of the preceding Mus / Xmi record and records the SMF they produce parsed into abstract form
+// (format, track count, division, tempo bytes, per track: declared length, events <<delta, status, data...>>, running-status
+// flags); TLC compares it with spec/Mus2Mid.tla / spec/Xmi2Mid.tla.  The SMF reader below (~45 lines) is trusted.
 #include "vh.hpp"
+#include "cvt_mus2mid.hpp"
+#include "cvt_xmi2mid.hpp"
 
 struct LogEnt { long long t; int a, b, c; std::vector<uint8_t> d; };
 static OPN2_MIDIPlayer *dev = NULL;
@@ -16,6 +23,7 @@ static size_t g_logCap = (size_t)-1;
 static int g_trunc = 0;
 static std::vector<uint8_t> fileBytes;
 static double g_mult = 1.0;
+static std::string srcKind = "none";
 typedef std::vector<uint8_t> Bytes;
 
 // TLC integers are 32-bit: a mis-converted file may carry absurd times; saturate (a saturated value fails every time predicate)
@@ -92,6 +100,19 @@ static Bytes encodeMus(const JV &c)
     putLE(o, (unsigned long)c.get("chans", 1), 2); putLE(o, 0, 2); putLE(o, ins.a.size(), 2); putLE(o, 0, 2);
     for(size_t i = 0; i < ins.a.size(); ++i) putLE(o, (unsigned long)ins.a[i].num(), 2);
     append(o, sc);
+    // malformed variants for the refinement of the converter's bounds checks (never loaded): "cut" drops the last k bytes of
+    // the score (scoreLen patched), "poke" [[r, v], ...] overwrites the score byte number r modulo the score length
+    size_t cut = (size_t)c.get("cut", 0), start = 16 + 2 * ins.a.size();
+    if(cut > 0 && cut <= sc.size())
+    {
+        o.resize(o.size() - cut);
+        size_t nl = sc.size() - cut; o[4] = (uint8_t)(nl & 255); o[5] = (uint8_t)(nl >> 8);
+    }
+    if(c.has("poke") && o.size() > start)
+    {
+        const JV &pk = c["poke"];
+        for(size_t i = 0; i < pk.a.size(); ++i) o[start + (size_t)pk.a[i].a[0].num() % (o.size() - start)] = (uint8_t)pk.a[i].a[1].num();
+    }
     return o;
 }
 
@@ -220,6 +241,77 @@ static Bytes encodeSmf(const JV &song)
     return out;
 }
 
+// ---------------------------------------------------------------- SMF -> abstract form (trusted reader of the converter output)
+static const size_t CVT_MAX_EVENTS = 3000, CVT_MAX_DATA = 64;
+static bool smfVlq(const uint8_t *d, size_t &p, size_t end, unsigned long &v)
+{
+    v = 0;
+    for(int i = 0; i < 4; ++i)
+    {
+        if(p >= end) return false;
+        uint8_t c = d[p++]; v = (v << 7) | (c & 0x7F);
+        if(!(c & 0x80)) return true;
+    }
+    return false;
+}
+static void writeAbstractSmf(JW &w, const uint8_t *d, size_t n)
+{
+    w.begin_obj();
+    bool hdr = n >= 14 && !memcmp(d, "MThd", 4) && d[4] == 0 && d[5] == 0 && d[6] == 0 && d[7] == 6;
+    w.kv("fmt", hdr ? (d[8] << 8 | d[9]) : -1); w.kv("ntr", hdr ? (d[10] << 8 | d[11]) : -1); w.kv("div", hdr ? (d[12] << 8 | d[13]) : -1);
+    size_t pos = hdr ? 14 : n;
+    std::vector<uint8_t> tempo;
+    bool tempoSeen = false;
+    w.key("tracks"); w.begin_arr();
+    while(hdr && pos + 8 <= n && !memcmp(d + pos, "MTrk", 4))
+    {
+        unsigned long len = ((unsigned long)d[pos + 4] << 24) | (d[pos + 5] << 16) | (d[pos + 6] << 8) | d[pos + 7];
+        size_t p = pos + 8, end = p + len <= n ? p + len : n;
+        int clean = p + len <= n ? 1 : 2;          // 2: the declared length runs past the buffer
+        std::string rs;
+        size_t nev = 0; int trunc = 0, running = 0;
+        w.begin_obj(); w.kv("len", tlcint((long long)len));
+        w.key("ev"); w.begin_arr();
+        while(p < end)
+        {
+            unsigned long delta, mlen = 0;
+            if(!smfVlq(d, p, end, delta)) { clean = 3; break; }
+            if(p >= end) { clean = 3; break; }
+            int st = d[p], isRs = 0;
+            if(st >= 0x80) { ++p; if(st < 0xF0) running = st; }
+            else { st = running; isRs = 1; if(!st) { clean = 4; break; } }
+            size_t nd = 0; int type = -1;
+            int hi = st >> 4;
+            if(hi == 0xC || hi == 0xD) nd = 1;
+            else if(hi < 0xF) nd = 2;
+            else if(st == 0xFF) { if(p >= end) { clean = 3; break; } type = d[p++]; if(!smfVlq(d, p, end, mlen)) { clean = 3; break; } nd = mlen; }
+            else if(st == 0xF0 || st == 0xF7) { if(!smfVlq(d, p, end, mlen)) { clean = 3; break; } nd = mlen; }
+            else { clean = 5; break; }
+            if(p + nd > end) { clean = 3; break; }
+            if(st == 0xFF && type == 0x51 && !tempoSeen) { tempoSeen = true; tempo.assign(d + p, d + p + nd); }
+            if(nev < CVT_MAX_EVENTS)
+            {
+                w.begin_arr(); w.num(tlcint((long long)delta)); w.num(st); if(type >= 0) w.num(type);
+                for(size_t q = 0; q < nd && q < CVT_MAX_DATA; ++q) w.num(d[p + q]);
+                w.end_arr();
+                rs.push_back((char)isRs);
+            }
+            else trunc = 1;
+            ++nev; p += nd;
+        }
+        w.end_arr();
+        w.key("rs"); w.begin_arr(); for(size_t q = 0; q < rs.size(); ++q) w.num(rs[q]); w.end_arr();
+        w.kv("nev", (long long)nev); w.kv("trunc", trunc); w.kv("clean", clean);
+        w.end_obj();
+        pos = pos + 8 + len;
+        if(pos > n) pos = n;
+    }
+    w.end_arr();
+    w.key("tempo"); w.begin_arr(); for(size_t q = 0; q < tempo.size(); ++q) w.num(tempo[q]); w.end_arr();
+    w.kv("tail", (long long)(n - pos)); w.kv("size", (long long)n);
+    w.end_obj();
+}
+
 int main(int argc, char **argv)
 {
     if(argc < 3) return 2;
@@ -236,7 +328,7 @@ int main(int argc, char **argv)
         if(e == "Init")
         {
             if(dev) { opn2_close(dev); dev = NULL; }
-            glog.clear(); g_mult = 1.0; fileBytes.clear();
+            glog.clear(); g_mult = 1.0; fileBytes.clear(); srcKind = "none";
             dev = opn2_init((long)c.get("rate", 44100));
             if(!dev) return 2;
             opn2_setNumChips(dev, (int)c.get("chips", 2));
@@ -252,10 +344,36 @@ int main(int argc, char **argv)
         else if(e == "Mus" || e == "Xmi" || e == "Smf")
         {
             fileBytes = e == "Mus" ? encodeMus(c) : e == "Xmi" ? encodeXmi(c) : encodeSmf(c);
+            srcKind = e == "Mus" ? "mus" : e == "Xmi" ? "xmi" : "smf";
             w.kv("nbytes", (long long)fileBytes.size());
             w.key("bytes"); w.begin_arr();
             if(fileBytes.size() <= 4096) for(size_t q = 0; q < fileBytes.size(); ++q) w.num(fileBytes[q]);
             w.end_arr();
+        }
+        else if(e == "Cvt")
+        {   // the real converters, called the way parseMUS / parseXMI call them
+            w.ks("kind", srcKind);
+            w.key("songs"); 
+            if(srcKind == "mus")
+            {
+                Bytes img = fileBytes;
+                uint8_t *mid = NULL; uint32_t midLen = 0;
+                int r = Convert_mus2midi(img.data(), (uint32_t)img.size(), &mid, &midLen, 0);
+                w.begin_arr(); if(r >= 0 && mid) writeAbstractSmf(w, mid, midLen); w.end_arr();
+                w.kv("r", r);
+                free(mid);
+            }
+            else if(srcKind == "xmi")
+            {
+                Bytes img = fileBytes; img.resize(fileBytes.size() + 20, 0);
+                std::vector<std::vector<uint8_t> > songs;
+                int r = Convert_xmi2midi_multi(img.data(), (uint32_t)img.size(), songs, XMIDI_CONVERT_NOCONVERSION);
+                w.begin_arr();
+                for(size_t q = 0; r >= 0 && q < songs.size() && q < 16; ++q) writeAbstractSmf(w, songs[q].data(), songs[q].size());
+                w.end_arr();
+                w.kv("r", r); w.kv("nsongs", (long long)songs.size());
+            }
+            else { w.begin_arr(); w.end_arr(); w.kv("r", -2); }
         }
         else if(e == "Select") opn2_selectSongNum(dev, (int)c.get("n"));
         else if(e == "Load")
